@@ -43,6 +43,11 @@ class NotRenderable(Exception):
     pass
 
 
+MEMBER = "ma_member_sa"
+APP = "sa_mor_app"
+MTYPE = "Sa"
+
+
 def r_term(t, mem):
     if t["k"] == "var":
         return t["n"]
@@ -50,6 +55,8 @@ def r_term(t, mem):
         return "_"
     f = t["f"]
     args = t["args"]
+    if f == APP:
+        return "%s@(%s)" % (r_term(args[0], mem), r_term(args[1], mem))
     if f == DOM:
         return "dom(%s)" % r_term(args[0], mem)
     if f == COD:
@@ -67,6 +74,8 @@ def r_type(ty):
 
 def r_atom(a, mem):
     k = a["k"]
+    if k == "pred" and a["p"] == MEMBER:
+        return "%s: %s.%s" % (r_term(a["args"][1], mem), r_term(a["args"][0], mem), MTYPE)
     if k == "pred":
         if a["p"] in mem:
             if a["args"][0]["k"] == "wild":
@@ -104,9 +113,11 @@ def render(th):
     mem = set(th["member"])
     out = []
     for t in th["types"]:
-        if t not in (MODEL, MOR):
+        if t not in (MODEL, MOR, MTYPE):
             out.append("type %s;" % t)
     out.append("model %s {" % MODEL)
+    if th.get("member_types"):
+        out.append("    type %s;" % MTYPE)
     for p in th["preds"]:
         if p["name"] in mem:
             out.append("    pred %s(%s);" % (p["name"], ", ".join("%s: %s" % (LET[i], r_type(t)) for i, t in enumerate(p["args"][1:]))))
@@ -115,10 +126,10 @@ def render(th):
             out.append("    func %s(%s) -> %s;" % (f["name"], ", ".join("%s: %s" % (LET[i], r_type(t)) for i, t in enumerate(f["args"][1:])), r_type(f["res"])))
     out.append("}")
     for p in th["preds"]:
-        if p["name"] not in mem:
+        if p["name"] not in mem and p["name"] != MEMBER:
             out.append("pred %s(%s);" % (p["name"], ", ".join(r_type(t) for t in p["args"])))
     for f in th["funcs"]:
-        if f["name"] not in mem and f["name"] not in (DOM, COD):
+        if f["name"] not in mem and f["name"] not in (DOM, COD, APP):
             out.append("func %s(%s) -> %s;" % (f["name"], ", ".join(r_type(t) for t in f["args"]), r_type(f["res"])))
     for r in th["rules"]:
         out.append("rule %s {" % r["name"])
@@ -131,7 +142,52 @@ def render(th):
 # generator
 
 
+def _img_premises(cols, xs, start):
+    """For member-typed columns: premises `sa_mor_app(mf, x) = y`; returns (premises, image terms)."""
+    prem, img = [], []
+    for i, (ty, x) in enumerate(zip(cols, xs)):
+        if ty == MTYPE:
+            y = var("y%s" % LET[start + i])
+            prem.append({"k": "if", "atom": {"k": "eq", "l": app(APP, var("mf"), x), "r": y}})
+            img.append(y)
+        else:
+            img.append(x)
+    return prem, img
+
+
+def inheritance_rules_member_types(th):
+    rules = []
+    mem = set(th["member"])
+    sig_cod = [{"k": "if", "atom": {"k": "eq", "l": app(DOM, var("mf")), "r": var("ma")}},
+               {"k": "if", "atom": {"k": "eq", "l": app(COD, var("mf")), "r": var("mb")}}]
+    for p in th["preds"]:
+        if p["name"] in mem:
+            cols = p["args"][1:]
+            xs = [var("x%s" % LET[i]) for i in range(len(cols))]
+            prem, img = _img_premises(cols, xs, 0)
+            rules.append({"name": "inherit_" + p["name"], "body": [{"k": "if", "atom": {"k": "pred", "p": p["name"], "args": [var("ma")] + xs}}] + sig_cod + prem +
+                          [{"k": "then", "atom": {"k": "pred", "p": p["name"], "args": [var("mb")] + img}}]})
+    for f in th["funcs"]:
+        if f["name"] in mem:
+            cols = f["args"][1:] + [f["res"]]
+            xs = [var("x%s" % LET[i]) for i in range(len(cols))]
+            prem, img = _img_premises(cols, xs, 0)
+            rules.append({"name": "inherit_" + f["name"], "body": [{"k": "if", "atom": {"k": "eq", "l": app(f["name"], var("ma"), *xs[:-1]), "r": xs[-1]}}] + sig_cod + prem +
+                          [{"k": "then", "atom": {"k": "eq", "l": app(f["name"], var("mb"), *img[:-1]), "r": img[-1]}}]})
+            if f["res"] == MTYPE:
+                # typing: the value of a member function is a member of the same model
+                rules.append({"name": "typing_" + f["name"], "body": [{"k": "if", "atom": {"k": "eq", "l": app(f["name"], var("ma"), *xs[:-1]), "r": xs[-1]}},
+                                                                       {"k": "then", "atom": {"k": "pred", "p": MEMBER, "args": [var("ma"), xs[-1]]}}]})
+    # typing: the image of an element under a morphism is a member of the morphism's codomain
+    rules.append({"name": "typing_mor_app", "body": [{"k": "if", "atom": {"k": "eq", "l": app(APP, var("mf"), var("x")), "r": var("y")}},
+                                                      {"k": "if", "atom": {"k": "eq", "l": app(COD, var("mf")), "r": var("mb")}},
+                                                      {"k": "then", "atom": {"k": "pred", "p": MEMBER, "args": [var("mb"), var("y")]}}]})
+    return rules
+
+
 def inheritance_rules(th):
+    if th.get("member_types"):
+        return inheritance_rules_member_types(th)
     rules = []
     mem = set(th["member"])
     for p in th["preds"]:
@@ -313,6 +369,138 @@ def gen_model_theory(s, name="mt"):
 
 
 # ---------------------------------------------------------------------------------------------
+# theories with a member type: member relations over `Sa`, morphism application `f@(x)`; rules are
+# drawn from a pool of hand-written, well-typed flat rules (a random rule over the flat signature
+# would mix elements of different models, which the compiler rejects as a type conflict)
+
+
+def _if(a):
+    return {"k": "if", "atom": a}
+
+
+def _then(a):
+    return {"k": "then", "atom": a}
+
+
+def _p(p, *args):
+    return {"k": "pred", "p": p, "args": list(args)}
+
+
+def _eq(l, r):
+    return {"k": "eq", "l": l, "r": r}
+
+
+def _ty(v, ty):
+    return {"k": "type", "v": v, "ty": ty}
+
+
+def member_type_rule_pool(has_fs, has_pt):
+    m, n, x, y, t, f = var("m"), var("n"), var("x"), var("y"), var("t"), var("f")
+    pool = {
+        "pr_to_ps": [_if(_ty("m", MODEL)), _if(_p("pr", m, x, {"k": "wild"})), _then(_p("ps", m, x))],
+        "ps_pr_to_global": [_if(_ty("m", MODEL)), _if(_p("ps", m, x)), _if(_p("pr", m, x, t)), _then(_p("gmt", m, t))],
+        "same_tag_same_element": [_if(_ty("m", MODEL)), _if(_p("pr", m, x, t)), _if(_p("pr", m, y, t)), _then(_eq(x, y))],
+        "morphisms_total": [_if(_ty("m", MODEL)), _if(_p(MEMBER, m, x)), _if(_eq(app(DOM, f), m)), _if({"k": "def", "t": app(COD, f)}), _then({"k": "def", "t": app(APP, f, x)})],
+        "marked_models": [_if(_p("gm", m)), _if(_p("ps", m, x)), _if(_p("pr", m, x, t)), _then(_p("ga", t))],
+        "global_to_member": [_if(_ty("m", MODEL)), _if(_p("ga", t)), _if(_p("ps", m, x)), _then(_p("pr", m, x, t))],
+        "image_tagged": [_if(_eq(app(DOM, f), m)), _if(_eq(app(COD, f), n)), _if(_p("ps", m, x)), _if(_eq(y, app(APP, f, x))), _if(_p("pr", n, y, t)), _then(_p("gmt", m, t))],
+    }
+    if has_fs:
+        pool["ps_closed_under_fs"] = [_if(_ty("m", MODEL)), _if(_p("ps", m, x)), _if(_eq(y, app("fs", m, x))), _then(_p("ps", m, y))]
+        pool["fs_fixes_tagged"] = [_if(_ty("m", MODEL)), _if(_p("pr", m, x, t)), _if(_p("ga", t)), _if(_eq(y, app("fs", m, x))), _then(_eq(x, y))]
+    if has_pt:
+        pool["pt_in_ps"] = [_if(_ty("m", MODEL)), _if(_eq(x, app("pt", m))), _then(_p("ps", m, x))]
+        pool["pt_total"] = [_if(_ty("m", MODEL)), _then({"k": "def", "t": app("pt", m)})]
+    return pool
+
+
+def gen_member_type_theory(s, name="mt"):
+    rng = random.Random("member-type-theory-%d" % s)
+    has_fs = rng.random() < 0.6
+    has_pt = rng.random() < 0.4
+    preds = [{"name": "ps", "args": [MODEL, MTYPE]}, {"name": "pr", "args": [MODEL, MTYPE, "Ta"]},
+             {"name": MEMBER, "args": [MODEL, MTYPE]},
+             {"name": "ga", "args": ["Ta"]}, {"name": "gm", "args": [MODEL]}, {"name": "gmt", "args": [MODEL, "Ta"]}]
+    funcs = []
+    member = ["ps", "pr"]
+    if has_fs:
+        funcs.append({"name": "fs", "args": [MODEL, MTYPE], "res": MTYPE})
+        member.append("fs")
+    if has_pt:
+        funcs.append({"name": "pt", "args": [MODEL], "res": MTYPE})
+        member.append("pt")
+    funcs.append({"name": APP, "args": [MOR, MTYPE], "res": MTYPE})
+    funcs.append({"name": DOM, "args": [MOR], "res": MODEL})
+    funcs.append({"name": COD, "args": [MOR], "res": MODEL})
+    pool = member_type_rule_pool(has_fs, has_pt)
+    names = sorted(pool)
+    k = rng.randint(2, min(5, len(names)))
+    chosen = rng.sample(names, k)
+    if "morphisms_total" not in chosen and rng.random() < 0.6:
+        chosen.append("morphisms_total")
+    rules = [{"name": "r_" + n, "body": pool[n]} for n in sorted(chosen)]
+    th = {"name": name, "types": ["Ta", MODEL, MOR, MTYPE], "enums": [], "preds": preds, "funcs": funcs, "rules": rules,
+          "member": member, "member_types": {MTYPE: [MODEL, MEMBER]}, "seed": s}
+    th = json.loads(json.dumps(th))
+    th["text"] = render(th)
+    return th
+
+
+def gen_member_type_facts(rng, sig, th):
+    create = []
+    labels = {ty: [] for ty in sig.all_types}
+    for i in range(rng.randint(1, 2)):
+        create.append(["new", "Ta", "Ta%d" % i])
+        labels["Ta"].append("Ta%d" % i)
+    nobj = rng.randint(2, 4)
+    members = {}
+    for i in range(nobj):
+        lab = "%s%d" % (MODEL, i)
+        create.append(["new", MODEL, lab])
+        labels[MODEL].append(lab)
+        members[lab] = []
+        for j in range(rng.choice((0, 1, 1, 2))):
+            sl = "%s%d%s" % (MTYPE, i, LET[j])
+            create.append(["new", MTYPE, sl, lab])
+            labels[MTYPE].append(sl)
+            members[lab].append(sl)
+    morph = []
+    for i in range(rng.randint(1, 3)):
+        lab = "%s%d" % (MOR, i)
+        create.append(["new", MOR, lab])
+        a, b = sorted(rng.sample(range(nobj), 2))
+        la, lb = labels[MODEL][a], labels[MODEL][b]
+        r = rng.random()
+        if r < 0.85:
+            morph.append(["ins", DOM, lab, la])
+            morph.append(["ins", COD, lab, lb])
+            # some images given by the caller (only between members of the right models)
+            for sx in members[la]:
+                if members[lb] and rng.random() < 0.4:
+                    morph.append(["ins", APP, lab, sx, rng.choice(members[lb])])
+        elif r < 0.93:
+            morph.append(["ins", DOM, lab, la])
+        else:
+            morph.append(["ins", COD, lab, lb])
+    facts = []
+    for lab in labels[MODEL]:
+        for sx in members[lab]:
+            if rng.random() < 0.6:
+                facts.append(["ins", "ps", lab, sx])
+            if rng.random() < 0.5:
+                facts.append(["ins", "pr", lab, sx, rng.choice(labels["Ta"])])
+            if "fs" in sig.funcs and rng.random() < 0.4:
+                facts.append(["ins", "fs", lab, sx, rng.choice(members[lab])])
+        if rng.random() < 0.3:
+            facts.append(["ins", "gm", lab])
+    for tl in labels["Ta"]:
+        if rng.random() < 0.4:
+            facts.append(["ins", "ga", tl])
+    rng.shuffle(facts)
+    return create, morph, facts
+
+
+# ---------------------------------------------------------------------------------------------
 # histories: objects, an acyclic morphism diagram (possibly with dangling ends), carriers, facts
 
 
@@ -389,7 +577,7 @@ def timing_variants(rng, create, morph, facts, k):
     vs.append(("facts-closed-then-diagram", list(create) + facts + [["close"]] + morph + [["close"]]))
     vs.append(("diagram-closed-then-facts", list(create) + morph + [["close"]] + facts + [["close"]]))
     doms = [o for o in morph if o[1] == DOM]
-    cods = [o for o in morph if o[1] == COD]
+    cods = [o for o in morph if o[1] != DOM]  # codomains and, after them, the images the caller asserts
     vs.append(("dom-and-cod-in-different-closes", list(create) + facts + doms + [["close"]] + cods + [["close"]]))
     vs.append(("cod-then-facts-then-dom", list(create) + cods + [["close"]] + facts + [["close"]] + doms + [["close"]]))
     for j in range(max(0, k - len(vs))):
@@ -414,21 +602,27 @@ def inheritance_closure(sig, th, pub):
     bad = []
     dom = {r[0]: r[1] for r in pub["rels"].get(DOM, [])}
     cod = {r[0]: r[1] for r in pub["rels"].get(COD, [])}
+    image = {(r[0], r[1]): r[2] for r in pub["rels"].get(APP, [])}
     n = 0
     for m in sorted(set(dom) & set(cod)):
         a, b = dom[m], cod[m]
         for rel in th["member"]:
             rows = pub["rels"].get(rel, [])
+            cols = sig.rels[rel]
             have = set(tuple(r) for r in rows)
             for r in rows:
-                if r[0] == a:
-                    n += 1
-                    if sig.is_func(rel):
-                        # f(b, xs) must be defined and equal to f(a, xs)
-                        if tuple([b] + list(r[1:])) not in have:
-                            bad.append("%s(%s) = %s holds at the domain %d of morphism %d but not at its codomain %d" % (rel, r[1:-1], r[-1], a, m, b))
-                    elif tuple([b] + list(r[1:])) not in have:
-                        bad.append("%s%s holds at the domain %d of morphism %d but not at its codomain %d" % (rel, tuple(r[1:]), a, m, b))
+                if r[0] != a:
+                    continue
+                # member-typed components are replaced by their images; a row with a component that
+                # has no image is not inherited
+                img = [b]
+                for ty, x in zip(cols[1:], r[1:]):
+                    img.append(image.get((m, x)) if ty == MTYPE else x)
+                if any(x is None for x in img):
+                    continue
+                n += 1
+                if tuple(img) not in have:
+                    bad.append("%s%s holds at the domain %d of morphism %d but its image %s%s does not hold at the codomain %d" % (rel, tuple(r[1:]), a, m, rel, tuple(img[1:]), b))
     return bad, n
 
 
@@ -441,6 +635,7 @@ def old_without_new(sig, th, events):
     rel_snakes = {snake(r): r for r in sig.rels}
     type_snakes = {snake(t): t for t in sig.all_types}
     prev = None
+    prev_alloc = None
     found = []
     steps = 0
     for ev in events:
@@ -468,15 +663,24 @@ def old_without_new(sig, th, events):
                     cols = sig.rels[rel]
                     seen = seen | set(tuple(roots[t][x] if x < len(roots[t]) else x for t, x in zip(cols, row)) for row in seen)
                 fresh_old = parts["old"] - seen
+                if prev_alloc is not None:
+                    # rows that mention an element allocated since the previous observation were created
+                    # by the pending function definitions applied in between (they were new while the
+                    # rules ran, but no observation point falls into that window)
+                    cols = sig.rels[rel]
+                    fresh_old = set(row for row in fresh_old if not any(x >= prev_alloc.get(t, 0) for t, x in zip(cols, row)))
                 for row in sorted(fresh_old):
                     found.append("%s%s entered the old `_all` partition at condition evaluation %d without having been new" % (rel, row, ev["iter"]))
         prev = cur
+        if ev.get("public", {}).get("roots") is not None:
+            prev_alloc = {t: len(v) for t, v in ev["public"]["roots"].items()}
     return found, steps
 
 
 def c17_task(task):
     out = _empty_out()
-    th = gen_model_theory(task["tseed"])
+    mt = task.get("family") == "member-type"
+    th = gen_member_type_theory(task["tseed"]) if mt else gen_model_theory(task["tseed"])
     if th is None:
         _inc(out, "generated-theory-without-rules")
         return out
@@ -491,12 +695,13 @@ def c17_task(task):
             out.setdefault("notes", []).append(meta["stderr"][-400:])
         return out
     _cnt(out, "programs")
+    _cnt(out, "programs_with_member_type" if mt else "programs_member_relations_over_global_types")
     rth = reference_theory(th)
     rng = random.Random(sha(str(task["tseed"]), str(task["seed"]), "c17"))
     hists = []
     groups = []
     for i in range(task["factsets"]):
-        create, morph, facts = gen_model_facts(rng, sig, th)
+        create, morph, facts = (gen_member_type_facts if mt else gen_model_facts)(rng, sig, th)
         vs = timing_variants(rng, create, morph, facts, task["variants"])
         tags = []
         for j, (vname, ops) in enumerate(vs):
@@ -511,7 +716,7 @@ def c17_task(task):
         # reference: free model of the assertions (order is irrelevant for it)
         try:
             m0, rlabs = reference_input(sig, list(create) + morph + facts)
-            ref.chase(rth, m0, max_rounds=40, max_elems=60)
+            ref.chase(rth, m0, max_rounds=40, max_elems=90)
         except ref.Bound:
             _inc(out, "reference-chase-bound")
             continue
@@ -650,6 +855,8 @@ def c17(tier, replay=None):
     q = tier == "quick"
     n = 48 if q else 600
     tasks = [{"tseed": seed() * 100003 + 900000 + i, "seed": seed(), "factsets": 5 if q else 10, "variants": 6 if q else 9} for i in range(n)]
+    nm = 24 if q else 300
+    tasks += [{"tseed": seed() * 100003 + 960000 + i, "seed": seed(), "factsets": 5 if q else 10, "variants": 6 if q else 9, "family": "member-type"} for i in range(nm)]
     aggregate(res, pmap(c17_task, tasks))
     return res.finish()
 
